@@ -3,7 +3,7 @@ from datetime import datetime
 
 from harness.core import worker_main
 from harness.models import vorm
-from harness.models.vmodel import VA, VB, VC, VW, VM, VN, VK, Kind, VMMapping, Fa, Fb, plain_function
+from harness.models.vmodel import VA, VB, VC, VW, VM, VN, VX, VY, VK, Kind, VMMapping, VXMapping, Fa, Fb, plain_function
 
 from krrood.ormatic.dao import to_dao, ToDAOState, FromDAOState
 from harness.models import jsonmodel, jsonmodel2
@@ -13,14 +13,15 @@ SHARED_TO_DAO_STATE = ToDAOState()      # one conversion state for every heap th
 # truth value of every model instance, switchable per case (a mapped object may be a falsy Python object, e.g. an empty
 # container-like dataclass); conversions must not depend on it
 FALSY = [False]
-for _k in (VA, VC, VM):
+for _k in (VA, VC, VM, VX):
     _k.__bool__ = lambda self: not FALSY[0]
 
 GEN = None
 SCALARS = {"VA": ["name", "kind", "when", "nums", "weight", "k", "a", "b", "w", "label"], "VB": ["name", "kind", "when", "nums", "weight", "k", "a", "b", "w", "label", "extra"],
-           "VC": ["tag", "tag2", "j1", "j2", "cb"], "VW": ["tag", "tag2", "j1", "j2", "cb", "hidden", "extra_w"], "VM": ["label"], "VN": ["label", "extra"]}
-SINGLE = {"VA": ["one", "other"], "VB": ["one", "other"], "VC": ["back", "m"], "VW": ["back", "m"], "VM": ["ref"], "VN": ["ref"]}
-MANY = {"VA": ["many"], "VB": ["many"], "VC": ["peers"], "VW": ["peers"], "VM": [], "VN": []}
+           "VC": ["tag", "tag2", "j1", "j2", "cb"], "VW": ["tag", "tag2", "j1", "j2", "cb", "hidden", "extra_w"], "VM": ["label"], "VN": ["label", "extra"], "VX": ["label"], "VY": ["label", "extra"]}
+SINGLE = {"VA": ["one", "other"], "VB": ["one", "other"], "VC": ["x", "back", "m"], "VW": ["x", "back", "m"], "VM": ["ref"], "VN": ["ref"],
+          "VX": [], "VY": []}
+MANY = {"VA": ["many"], "VB": ["many"], "VC": ["peers"], "VW": ["peers"], "VM": [], "VN": [], "VX": ["pets"], "VY": ["pets"]}
 
 
 def build(case):
@@ -36,6 +37,10 @@ def build(case):
             objs[i] = (VC if c == "C" else VW)(**({} if c == "C" else {"hidden": 40 + i, "extra_w": 50 + i}), tag=i, tag2=7 * i, cb=(Fa.act, Fb.act, plain_function)[i % 3], j1=(jsonmodel.A(i, [i, "x"]) if i == 2 else jsonmodel.B(i, [i, "x"])) if i != 1 else None, j2=jsonmodel2.A(i, None))
         elif c == "N":
             objs[i] = VN(label=f"n{i}", extra=100 + i)
+        elif c == "X":
+            objs[i] = VX(label=f"x{i}")
+        elif c == "Y":
+            objs[i] = VY(label=f"y{i}", extra=200 + i)
         else:
             objs[i] = VM(label=f"m{i}")
     for i, r in enumerate(rec, 1):
@@ -43,7 +48,9 @@ def build(case):
         if cls[i - 1] in ("A", "B"):
             o.one = objs.get(r["one"]); o.other = objs.get(r["other"]); o.many = [objs[x] for x in r["many"]]
         elif cls[i - 1] in ("C", "W"):
-            o.back = objs.get(r["back"]); o.m = objs.get(r["m"]); o.peers = [objs[x] for x in r["peers"]]
+            o.x = objs.get(r["x"]); o.back = objs.get(r["back"]); o.m = objs.get(r["m"]); o.peers = [objs[x] for x in r["peers"]]
+        elif cls[i - 1] in ("X", "Y"):
+            o.pets = [objs[x] for x in r["pets"]]
         else:
             o.ref = objs.get(r["ref"])
     return objs
@@ -149,9 +156,9 @@ def _c05(case):
             s1.commit()
         with engine.connect() as con:
             out["rows"] = {t: con.execute(text(f'select count(*) from "{n}"')).scalar()
-                           for t, n in (("VA", "VADAO"), ("VB", "VBDAO"), ("VC", "VCDAO"), ("VM", "VMMappingDAO"), ("VN", "VNDAO"), ("VW", "VWDAO"))}
+                           for t, n in (("VA", "VADAO"), ("VB", "VBDAO"), ("VC", "VCDAO"), ("VM", "VMMappingDAO"), ("VN", "VNDAO"), ("VW", "VWDAO"), ("VX", "VXMappingDAO"), ("VY", "VYDAO"))}
         chain = {"VA": ["VADAO"], "VB": ["VBDAO", "VADAO"], "VC": ["VCDAO"], "VW": ["VWDAO", "VCDAO"], "VM": ["VMMappingDAO"],
-                 "VN": ["VNDAO", "VMMappingDAO"]}[type(root).__name__]
+                 "VN": ["VNDAO", "VMMappingDAO"], "VX": ["VXMappingDAO"], "VY": ["VYDAO", "VXMappingDAO"]}[type(root).__name__]
         diffs = {}
         for dn in chain:
             with Session(engine) as s2:       # a fresh session per load
@@ -169,7 +176,7 @@ def _c05(case):
         with Session(engine) as s3:
             st = FromDAOState()
             loaded = {}
-            for dn in ("VADAO", "VCDAO", "VMMappingDAO"):     # (VBDAO / VNDAO rows are loaded polymorphically through their base)
+            for dn in ("VADAO", "VCDAO", "VMMappingDAO", "VXMappingDAO"):     # (VBDAO / VNDAO rows are loaded polymorphically through their base)
                 for d in s3.scalars(select(getattr(gen, dn))).all():
                     loaded[(dn, d.database_id)] = (d, d.from_dao(state=st))
             shared_problem = None
@@ -177,12 +184,12 @@ def _c05(case):
                 if d.from_dao(state=st) is not o:
                     shared_problem = f"{dn} row {pk}: a second from_dao with the same state gave another object"
                     break
-                for f in ("one", "other", "back", "m", "ref"):
+                for f in ("one", "other", "x", "back", "m", "ref"):
                     t = getattr(d, f, None)
                     if t is not None and hasattr(t, "database_id"):
-                        tn = {"VBDAO": "VADAO", "VNDAO": "VMMappingDAO", "VWDAO": "VCDAO"}.get(type(t).__name__, type(t).__name__)
+                        tn = {"VBDAO": "VADAO", "VNDAO": "VMMappingDAO", "VWDAO": "VCDAO", "VYDAO": "VXMappingDAO"}.get(type(t).__name__, type(t).__name__)
                         want = loaded.get((tn, t.database_id))
-                        if want is not None and getattr(o, f, None) is not want[1] and not isinstance(getattr(o, f, None), VMMapping):
+                        if want is not None and getattr(o, f, None) is not want[1] and not isinstance(getattr(o, f, None), (VMMapping, VXMapping)):
                             shared_problem = f"{dn} row {pk}.{f}: not the object that loading the target row gave"
                             break
                 if shared_problem:
